@@ -4,7 +4,7 @@
 (* given script tree, named through alpha by the sub-trees the real hashes *)
 (* commit to, against the BIP341 algebra of Taproot.tla.                   *)
 (***************************************************************************)
-EXTENDS Taproot, Json, IOUtils, SequencesExt
+EXTENDS TapBuilder, Json, IOUtils, SequencesExt
 
 ASSUME TLCSet(1, ndJsonDeserialize(IOEnv.TRACE))
 Rec == TLCGet(1)
@@ -24,6 +24,10 @@ Proj(ls) == [q \in 1..Len(ls) |-> [k |-> ls[q].k, depth |-> ls[q].depth]]
 JudgeEvent(ev) ==
   \A tr \in {FromDL(ev.dl)} : \A L \in {LeavesT(tr)} : \A tooDeep \in {Height(tr) > MAX_DEPTH} :
   /\ (~ev.panic \/ Report("C11", "taproot_panic", ev, ev.msg))
+  \* L2 conformance: the builder state machine of TapBuilder.tla predicts acceptance and the depth list
+  /\ (ev.panic \/ \A B \in {BuilderOf(tr)} :
+        (ev.parsed = ~B.err /\ (~ev.parsed \/ [q \in 1..Len(ev.leaves) |-> [d |-> ev.leaves[q].depth, k |-> ev.leaves[q].k]] = B.leaves))
+        \/ Report("INFO", "drift_l2_tapbuilder", ev, ""))
   \* a tree within the depth limit on which the library panics has no output key, no control blocks
   /\ (~ev.panic \/ tooDeep \/ Report("C15", "valid_tree_panics", ev, ev.msg))
   /\ (ev.panic \/
